@@ -31,8 +31,12 @@ ASSUMED_CONSISTENT_CACHES = {
 # (record -> segments -> visible records -> disk).  The root contract of that layer joins their checks; the contracts it uses at its
 # call sites (make_segments, make_segment, represent_as_bytes, _make_visible_record, the output buffer) follow by the callee closure.
 # The value encoders (write_struct*) need no entry: they are reached through the closure from the functions that call them.
-LAYER_ROOTS = {'transport': ['DLISWriter.write_logical_records']}
+# 'encoders' = every verified value-encoder contract (all C06 contracts that are not lemmas; filled in by the registry).  C15 ("a valid
+# specification can be written whatever the sizes") needs their exact raises-iff side: an encoder that rejects a representable value
+# (a 255-character name) makes a valid specification unwritable.
+LAYER_ROOTS = {'transport': ['DLISWriter.write_logical_records'], 'encoders': '@C06-non-lemma'}
 PROPERTY_LAYERS = {p: ['transport'] for p in ('C03', 'C04', 'C05', 'C07', 'C08', 'C09', 'C12', 'C13')}
+PROPERTY_LAYERS['C15'] = ['encoders']
 ASSUMPTIONS = {
     '*': ['machine arithmetic: none - python ints are encoded as mathematical integers exactly',
           'termination is proved only where a loop variant is stated',
